@@ -333,6 +333,13 @@ func c01validate(res *vlib.Result, rec *krecord, recipe string, faults bool) {
 					continue
 				}
 				for _, cx := range ex.Contexts {
+					if fmt.Sprint(cx["type"]) == "Group" {
+						// compaction keeps the last context of a run of one group, whichever binding it came from
+						if b.Group != "" && fmt.Sprint(cx["groupName"]) == b.Group && exitOf(ex.Execution) == 0 {
+							lastGroup = ex
+						}
+						continue
+					}
 					if fmt.Sprint(cx["binding"]) != b.Name {
 						continue
 					}
@@ -527,8 +534,13 @@ func c01validate(res *vlib.Result, rec *krecord, recipe string, faults bool) {
 					if recipe == "none" || recipe == "ns-scope-changes" || recipe == "R6-slow-consumer" {
 						cls = "lost/phase=" + strings.ReplaceAll(strings.SplitN(phase, ":", 2)[0], " ", "-")
 					}
-					if recipe == "ns-scope-changes" && len(b.Sel.NsLabels) > 0 {
+					if len(b.Sel.NsLabels) > 0 && len(vc.NsHist[parts[0]]) > 1 {
+						// the object's namespace was relabelled or deleted (and possibly re-created) during the case
 						cls = "lost-or-stale/ns-scope-change"
+					}
+					if miss.Type == "Deleted" && phase == "between-AddMonitor-and-StartMonitor" && inV {
+						// the view itself contains an object that was already deleted (see C02's ghost finding)
+						cls = "stale/ghost-deleted-between-AddMonitor-list-and-informer-start"
 					}
 					res.Violate(cls, "binding %s object %s: Synchronization view shows %s, delivered events %v, expected (from the ground truth, as a suffix) %v; first missing: %s (written in phase %q)\n%s", hb, key, c01viewDesc(inV, vGen), got, want, miss, phase, desc())
 				}
